@@ -91,7 +91,9 @@ _M = ["fs.meta", "fs.stat", "fs.meta"]
 SITES_FOR = {
     "file_input": ["fs.open", "fs.read", "fs.close"],
     "file_output": ["fs.open"],
-    "read": ["in.read"], "readln": ["in.read"], "read_all": ["in.read"],
+    "read": ["in.read", "in.read", "out.flush", "out.write"],
+    "readln": ["in.read", "in.read", "out.flush", "out.write"],
+    "read_all": ["in.read", "in.read", "out.flush", "out.write"],
     "process_lines": ["in.read", "out.write"],
     "for_input": ["in.read", "out.write"],
     "print": _W, "println": _W, "printf": ["out.write"],
@@ -164,6 +166,8 @@ def gen_case(rng, tier, k):
             name = fn
         elif r < 0.42:
             h = some_handle()
+            if rng.random() < 0.3:
+                h = "stdin"
             cb = rng.choice(["fn(line) line", "fn(line) error 'cb'",
                              "fn(line) undefined_zz", "fn(line) 1 / 0",
                              "fn(line) print(line)", "fn(a, b) a"])
@@ -308,6 +312,8 @@ def gen_case(rng, tier, k):
                                "in.read", "console.write"])
             if rng.random() < 0.8 and name in SITES_FOR:
                 site = rng.choice(SITES_FOR[name])
+            elif any(h[1] == "out" for h in handles) and rng.random() < 0.6:
+                site = rng.choice(["fs.flush", "fs.write", "fs.close"])
             errs = {"fs.open": ["ENOENT", "EACCES", "EISDIR", "EMFILE",
                                 "EIO"],
                     "fs.read": ["EIO", "UNICODE"],
@@ -317,8 +323,11 @@ def gen_case(rng, tier, k):
                                 "EXDEV", "EIO"],
                     "fs.stat": ["EACCES"],
                     "proc.run": ["ENOENT", "EACCES", "RC", "EIO"],
-                    "out.write": ["EIO", "VALUE"], "out.flush": ["EIO"],
-                    "out.close": ["EIO"], "in.read": ["EIO", "EOF", "VALUE"],
+                    "out.write": ["EIO", "VALUE", "TYPE", "ATTR", "RUNTIME",
+                                  "PIPE"],
+                    "out.flush": ["EIO", "VALUE", "ATTR", "PIPE"],
+                    "out.close": ["EIO", "ATTR"],
+                    "in.read": ["EIO", "EOF", "VALUE", "TYPE", "ATTR"],
                     "console.write": ["EIO"]}
             faults = [{"site": site, "nth": rng.choice([0, 0, 0, 1, 2]),
                        "err": rng.choice(errs[site])}]
@@ -343,7 +352,11 @@ def gen_case(rng, tier, k):
     return {"config": {"prng": 0.5,
                        "listdir_perm": rng.choice([None, None,
                                                    rng.randrange(1000)]),
-                       "stdin": rng.choice(["", "in1\nin2\n", "x"])},
+                       "stdin": rng.choice(["", "in1\nin2\n", "x"]),
+                       # the host hands over either an object with the
+                       # input protocol or a plain Python text stream
+                       "stdin_kind": rng.choice(["protocol", "protocol",
+                                                 "text"])},
             "ops": ops}
 
 
@@ -452,7 +465,10 @@ def run_case(case, root):
     try:
         build_world(sim)
         sim.w.listdir_perm = cfg.get("listdir_perm")
-        it = sim.new_interpreter("A", False, True, cfg.get("stdin", ""))
+        it = sim.new_interpreter("A", False, True, cfg.get("stdin", ""),
+                                 cfg.get("stdin_kind", "protocol"))
+        if cfg.get("stdin_kind") == "text":
+            probes["stdin_is_python_text_stream"] = 1
         from ckl.values import Value
         from ckl.errors import CklRuntimeError
         prev_failed = False
